@@ -37,7 +37,10 @@ Fragments ==
     [rst |-> <<60, 33, 91, 67, 68, 65, 84, 65, 91>>, plain |-> <<60, 33, 91, 67, 68, 65, 84, 65, 91>>],   \* 27: CDATA section start
     [rst |-> <<60, 63>>, plain |-> <<60, 63>>],   \* 28: processing instruction start
     [rst |-> <<38, 108, 116, 59>>, plain |-> <<38, 108, 116, 59>>],   \* 29: entity reference as text
-    [rst |-> <<38, 35, 54, 48, 59>>, plain |-> <<38, 35, 54, 48, 59>>] >>   \* 30: character reference as text
+    [rst |-> <<38, 35, 54, 48, 59>>, plain |-> <<38, 35, 54, 48, 59>>],   \* 30: character reference as text
+    [rst |-> <<42, 119, 42>>, plain |-> <<119>>],   \* 31: emphasised word (an inline node of its own)
+    [rst |-> <<47>>, plain |-> <<47>>],   \* 32: slash
+    [rst |-> <<96, 96, 119, 96, 96>>, plain |-> <<119>>] >>   \* 33: inline literal (an inline node of its own)
 NF == Len(Fragments)
 \* "longtail": after a harmless text so long that a target switches to its multi-line form (Python docstrings at 64)
 Layouts == {"tail", "head", "mid", "longtail"}
